@@ -17,7 +17,8 @@ Ops == {"enc", "dec"}
 KeyTypes == {"x25519", "ssh-ed25519", "ssh-rsa", "scrypt"}
 KeyArgs == {"r", "R", "ei"}            \* encryption: -r RECIPIENT | -R FILE | -e -i IDENTITYFILE
 Inputs == {"file", "pipe", "missing"}
-Damages == {"none", "hdrbit", "mac", "paybit_first", "paybit_last", "trunc", "wrongkey", "garbage"}
+\* "trunc_chunk": the input ends exactly at a chunk boundary (after the nonce, or after the first whole chunk)
+Damages == {"none", "hdrbit", "mac", "paybit_first", "paybit_last", "trunc", "trunc_chunk", "wrongkey", "garbage"}
 \* "devnull": -o /dev/null (a character device that takes everything); "fifo": -o names a FIFO somebody reads from
 \* "tty": no -o and standard output is a terminal; "tty_dash": the same with an explicit "-o -"
 Outs == {"stdout", "new", "existing", "missingdir", "underfile", "same_input", "same_keyfile", "devfull_o", "devfull_stdout", "limit", "devnull", "fifo", "tty", "tty_dash"}
@@ -37,7 +38,7 @@ OutVariants(op, key, ka, inp) ==
   \cup {[out |-> "limit", spelling |-> "same", limit |-> l] : l \in Limits}
   \cup (IF inp = "file" THEN {[out |-> "same_input", spelling |-> sp, limit |-> "zero"] : sp \in Spellings} ELSE {})
   \cup (IF key # "scrypt" /\ ~(op = "enc" /\ ka = "r") THEN {[out |-> "same_keyfile", spelling |-> sp, limit |-> "zero"] : sp \in Spellings} ELSE {})
-DamagesFor(sz) == {"none", "hdrbit", "mac", "paybit_first", "wrongkey", "garbage"} \cup (IF sz >= 1 THEN {"trunc"} ELSE {}) \cup (IF sz >= 2 THEN {"paybit_last"} ELSE {})
+DamagesFor(sz) == {"none", "hdrbit", "mac", "paybit_first", "wrongkey", "garbage", "trunc_chunk"} \cup (IF sz >= 1 THEN {"trunc"} ELSE {}) \cup (IF sz >= 2 THEN {"paybit_last"} ELSE {})
 EncCommands == {Cmd("enc", key, ka, ar, inp, sz, "none", ov.out, ov.spelling, ov.limit, "none") :
                   key \in KeyTypes, ka \in KeyArgs, ar \in BOOLEAN, inp \in {"file", "pipe"}, sz \in Sizes,
                   ov \in UNION {OutVariants("enc", k2, ka2, i2) : k2 \in KeyTypes, ka2 \in KeyArgs, i2 \in {"file", "pipe"}}}
@@ -68,13 +69,14 @@ Fail == exit' = 1 /\ phase' = "done" /\ UNCHANGED <<cmd, outState>>
 Go(p) == phase' = p /\ UNCHANGED <<cmd, outState, exit>>
 
 \* does the header of the input pass (decryption)?
-HeaderOK == cmd.damage \in {"none", "paybit_first", "paybit_last", "trunc"}
+HeaderOK == cmd.damage \in {"none", "paybit_first", "paybit_last", "trunc", "trunc_chunk"}
 \* how far does the copy get?  "all" | "none" (fails before the first byte) | "some" (a proper prefix)
 CopyReach == CASE cmd.op = "enc" -> "all"
                [] cmd.damage = "none" -> "all"
                [] cmd.damage = "paybit_first" -> "none"
                [] cmd.damage = "paybit_last" -> "some"
                [] cmd.damage = "trunc" -> (IF cmd.size >= 2 THEN "some" ELSE "none")
+               [] cmd.damage = "trunc_chunk" -> (IF cmd.size >= 2 THEN "some" ELSE "none")
                [] OTHER -> "none"
 \* the destination: can it be created, and how much does it take?
 \* (binary output to a terminal is refused before anything is written unless asked for with "-o -")
